@@ -338,6 +338,31 @@ fn get_node_tag<'i>(
     }
 }
 
+/// Unescapes a literal, reporting an escape that denotes no character
+/// (e.g. `\u{D800}` or `\u{110000}`) as an error located at the literal.
+fn unescape_literal(pair: &Pair<'_, Rule>, kind: &str) -> Result<String, Vec<Error<Rule>>> {
+    unescape(pair.as_str()).ok_or_else(|| {
+        vec![Error::new_from_span(
+            ErrorVariant::CustomError {
+                message: format!("incorrect {kind} literal"),
+            },
+            pair.as_span(),
+        )]
+    })
+}
+
+/// Parses a `PEEK[a..b]` index, reporting a number that does not fit as a located error.
+fn peek_slice_index(pair: &Pair<'_, Rule>) -> Result<i32, Vec<Error<Rule>>> {
+    pair.as_str().parse().map_err(|_| {
+        vec![Error::new_from_span(
+            ErrorVariant::CustomError {
+                message: "number cannot overflow i32".to_owned(),
+            },
+            pair.as_span(),
+        )]
+    })
+}
+
 fn consume_expr<'i>(
     pairs: Peekable<Pairs<'i, Rule>>,
     pratt: &PrattParser<Rule>,
@@ -401,8 +426,7 @@ fn consume_expr<'i>(
                         let mut pairs = pair.into_inner();
                         pairs.next().unwrap(); // opening_paren
                         let contents_pair = pairs.next().unwrap();
-                        let string =
-                            unescape(contents_pair.as_str()).expect("incorrect string literal");
+                        let string = unescape_literal(&contents_pair, "string")?;
                         ParserNode {
                             expr: ParserExpr::PushLiteral(string[1..string.len() - 1].to_owned()),
                             span: contents_pair.clone().as_span(),
@@ -425,7 +449,7 @@ fn consume_expr<'i>(
                             Rule::range_operator => 0,
                             Rule::integer => {
                                 pairs.next().unwrap(); // ..
-                                pair_start.as_str().parse().unwrap()
+                                peek_slice_index(&pair_start)?
                             }
                             _ => unreachable!("peek start"),
                         };
@@ -434,7 +458,7 @@ fn consume_expr<'i>(
                             Rule::closing_brack => None,
                             Rule::integer => {
                                 pairs.next().unwrap(); // }
-                                Some(pair_end.as_str().parse().unwrap())
+                                Some(peek_slice_index(&pair_end)?)
                             }
                             _ => unreachable!("peek end"),
                         };
@@ -448,14 +472,14 @@ fn consume_expr<'i>(
                         span: pair.clone().as_span(),
                     },
                     Rule::string => {
-                        let string = unescape(pair.as_str()).expect("incorrect string literal");
+                        let string = unescape_literal(&pair, "string")?;
                         ParserNode {
                             expr: ParserExpr::Str(string[1..string.len() - 1].to_owned()),
                             span: pair.clone().as_span(),
                         }
                     }
                     Rule::insensitive_string => {
-                        let string = unescape(pair.as_str()).expect("incorrect string literal");
+                        let string = unescape_literal(&pair, "string")?;
                         ParserNode {
                             expr: ParserExpr::Insens(string[2..string.len() - 1].to_owned()),
                             span: pair.clone().as_span(),
@@ -464,11 +488,11 @@ fn consume_expr<'i>(
                     Rule::range => {
                         let mut pairs = pair.into_inner();
                         let pair = pairs.next().unwrap();
-                        let start = unescape(pair.as_str()).expect("incorrect char literal");
+                        let start = unescape_literal(&pair, "char")?;
                         let start_pos = pair.clone().as_span().start_pos();
                         pairs.next();
                         let pair = pairs.next().unwrap();
-                        let end = unescape(pair.as_str()).expect("incorrect char literal");
+                        let end = unescape_literal(&pair, "char")?;
                         let end_pos = pair.clone().as_span().end_pos();
 
                         ParserNode {
